@@ -11,6 +11,7 @@ def spec():
 
 
 def run(ctx, rep):
+    rep.exhaustive = True  # 17 categories x 4 directions x 2 = 136 cells: the finite space the property quantifies over is enumerated completely
     facts = ctx.mir
     sp = spec()
     rep.rule("T1", "A3 tabulation of validation::get_requirement_for_arg_direction over all type categories vs spec/direction.json")
